@@ -31,7 +31,7 @@ SPEC = {
 
 OPS = ["subset", "subset", "subsub", "subsub", "subsub", "combine", "combine", "concat", "concat", "invert",
        "observed", "observed", "unobserved", "get_plate", "plates", "to_screen", "unique", "cross", "subset_extreme",
-       "set_observed", "set_observed", "read"]
+       "set_observed", "set_observed", "read", "merge_base_plates"]
 
 
 def preload(prop):
@@ -365,6 +365,36 @@ def execute(prop, plan):
                     stats.probe("set_observed_on_base_with_live_views")
                     stats.nontrivial = stats.nontrivial or len(pool) >= 2
                 opsdone.append("set_observed")
+            elif op == "merge_base_plates":
+                # two plates of a parent are merged IN PLACE (what the plate smoothers do): rows keep everything but
+                # their plate label / plate id; live views keep selecting the same rows
+                b = rnd.randrange(2)
+                rows, ids = tables[b]
+                by = {}
+                for r in rows:
+                    by.setdefault(r[3], set()).add(r[4])
+                cands = [[p for p, stt in by.items() if stt == {flag}] for flag in (True, False)]
+                cands = [sorted(c) for c in cands if len(c) >= 2]
+                if cands:
+                    grp = rnd.choice(cands)
+                    pa, pb = rnd.sample(grp, 2)
+                    handles = {str(p.plate_name): p for p in bases[b].plates}
+                    try:
+                        handles[pa].merge(handles[pb])
+                    except Exception as e:
+                        violation("C14.merge-raised", type(e).__name__, f"merging two plates of equal status raised {e!r}")
+                        break
+                    now_rows, now_ids = ref.content_rows(bases[b]), ref.row_ids(bases[b])
+                    survivors = {nr[3] for r, nr in zip(rows, now_rows) if r[3] in (pa, pb)}
+                    ok = len(survivors) == 1 and survivors <= {pa, pb} and all(
+                        (r[0], r[1], r[2], r[4]) == (nr[0], nr[1], nr[2], nr[4]) and (nr[3] == r[3] or r[3] in (pa, pb))
+                        for r, nr in zip(rows, now_rows)) and all(i[:2] == ni[:2] for i, ni in zip(ids, now_ids))
+                    if not ok:
+                        violation("C14.merge-changed-rows", "Plate.merge", "merging two plates changed more than the plate label of their rows")
+                        break
+                    tables[b] = (now_rows, now_ids)  # (which of the two names survives, and the new plate ids, are the object's to say)
+                    stats.probe("base_plates_merged_in_place")
+                opsdone.append("merge_base_plates")
             elif op == "cross":
                 a = [x for x in pool if x.base == 0]
                 c = [x for x in pool if x.base == 1]
